@@ -31,6 +31,8 @@ Line-protocol driver for the C13 models (calendar, interval calculators, query p
                                         `unknown-variant` if the source text is neither known variant)
   batch <c> t1 t2 ...               -> F:t,t,.. F:t,..  (family groups of one shard's rows, BrokerBatchShardFamilyIterator;
                                         groups sorted by family, rows sorted) | none
+  dstzone <zone>@<year>             -> off0 a1 o1 a2 o2 (the table Model/C13DstZones.lean; the harness answers with what Go's
+                                        time package reports from the tz database) | unknown
   bpool c1 t.. | c2 t.. | ..        -> the groups of every request, ` | `-separated: a sequence of write requests (interval type,
                                         rows) served by ONE pooled iterator object (stateful model FamIter, Model/C13Broker.lean)
   biter t1 t2 .. | c1 c2 ..         -> the same batch iterated once per calculator without release (rows stay as the previous
@@ -61,6 +63,7 @@ import LinVerif.Model.IntervalZone
 import LinVerif.Model.GetOrCreate
 import LinVerif.Model.C13Evict
 import LinVerif.Model.C13Broker
+import LinVerif.Model.C13DstZones
 import LinVerif.Generated.C13
 
 namespace LinVerif.Driver.C13
@@ -306,6 +309,7 @@ def step (st : Unit) (ws : List String) : Unit × String :=
       match parseCalc c, ints rest with
       | some c, some ts => showGroups (groupFamilies c ts)
       | _, _ => "bad-op"
+    | ["dstzone", name] => (dstZoneLine name).getD "unknown"
     | "bpool" :: rest =>
       match (splitBar rest).mapM parseReq with
       | some reqs => " | ".intercalate ((FamIter.serveAll FamIter.zero reqs).map showGroups)
